@@ -24,8 +24,8 @@ RULE = (
     "non-trivial = state with at least 3 linked nodes (a route of >=2 hops exists); distinct by history"
 )
 BOUNDS = {
-    "quick": "trees n<=6 (classes) + all labelled trees n<=5; graphs: 4 nodes all edges, 5 nodes <=6 edges, 6 nodes <=6 edges; registry histories depth<=3 over 14 registration operations (incl. two re-registrations of a used name and a local orbital frame on a body-centred parent)",
-    "thorough": "trees n<=8 (classes) + all labelled trees n<=6; graphs: 5 nodes <=8 edges, 6 nodes <=7 edges; registry histories depth<=4",
+    "quick": "trees n<=6 (classes) + all labelled trees n<=5; graphs: 4 nodes all edges, 5 nodes <=6 edges, 6 nodes <=6 edges; registry histories: all of length<=3 over the 8 core operations, all of length<=2 over the 17 operations, and every length-3 history placing a dependent operation (frame on the Moon frame, nested frame, re-registration) with its prerequisite (incl. two re-registrations of a used name and a local orbital frame on a body-centred parent)",
+    "thorough": "trees n<=8 (classes) + all labelled trees n<=6; graphs: 5 nodes <=8 edges, 6 nodes <=7 edges; registry histories: length<=4 over the core operations, length<=3 over all 17",
 }
 ASSUMPTIONS = [
     "Node behaviour is invariant under renaming of nodes (names are only compared for equality / used as dict keys); "
@@ -315,13 +315,13 @@ def units(tier, seed):
             if set(e2) == {0, 1}:
                 continue
             u.append((cfg, dict(part="graph", n=n, m=m, prefix=[[0, 1], list(e2)])))
-    # registries
-    depth = 3 if tier == "quick" else 4
-    for first in REG_OPS:
-        if not _enabled(first, []):
-            continue
-        for second in [None] + [o for o in REG_OPS if _enabled(o, [first])]:
-            u.append((cfg, dict(part="registry", prefix=[first] + ([second] if second else []), depth=depth)))
+    # registries: explicit history lists (deviation-bounded: every history over the core operations to the full depth,
+    # every history over ALL operations one level shallower, plus every length-3 history containing a dependent
+    # operation right after / one step after the registration it needs)
+    hs = registry_histories(tier)
+    chunk = 12
+    for i in range(0, len(hs), chunk):
+        u.append((cfg, dict(part="registry", hists=hs[i : i + chunk])))
     return u
 
 
@@ -347,7 +347,8 @@ def run_unit(p, t):
     elif p["part"] == "graph":
         run_graph(p["n"], p["m"], [tuple(e) for e in p["prefix"]], t)
     elif p["part"] == "registry":
-        run_registry(p["prefix"], p["depth"], t)
+        for h in p["hists"]:
+            check_registry(h, t)
 
 
 def run_tree(n, edges, first, t, kind):
@@ -431,13 +432,13 @@ def run_graph(n, m, prefix, t):
 # ---------------------------------------------------------------------------
 # registries of the real frames
 
-REG_OPS = ["sta1", "sta2", "staE", "orb0", "orbQ", "orbT", "moon", "sun", "orbM", "orbN", "lofM", "orb0b", "sta1b", "svQ"]
+REG_OPS = ["sta1", "sta2", "staE", "orb0", "orbQ", "orbT", "moon", "sun", "orbM", "orbN", "lofM", "orb0b", "sta1b", "svQ", "staP", "staT", "lone"]
 # operations that need an earlier registration: the frame their reference orbit is expressed in, or - for the
 # re-registrations orb0b / sta1b - the name they define again with other data (the links of the new definition
 # must then be the ones followed)
 REG_NEEDS = {"orbM": "moon", "orbN": "orb0", "lofM": "moon", "orb0b": "orb0", "sta1b": "sta1"}
 STATIONS = {"Sta1": (43.428889, 1.497778, 178.0), "Sta2": (-35.4, 148.98, 690.0), "StaE": (10.0, -60.0, 50.0),
-            "Sta1@b": (-22.5, 114.1, 35.0)}
+            "Sta1@b": (-22.5, 114.1, 35.0), "StaP": (64.8, -147.7, 135.0), "StaT": (-0.6, 73.1, 2.0)}
 
 
 def _enabled(op, hist):
@@ -504,6 +505,19 @@ def _apply(op):
         o = Orbit([8200e3, 0.02, 1.3, 2.0, 1.1, 4.0], _REG["date"], "keplerian", "EME2000", "Kepler")
         _REG["ref_of"]["Orb0"] = o
         return orbit2frame("Orb0", o, None, exists_warning=False).name
+    if op in ("staP", "staT"):  # stations whose parent frame is not the default ITRF (the station is then fixed in that frame)
+        from beyond.frames.frames import get_frame
+
+        nm, par = ("StaP", "PEF") if op == "staP" else ("StaT", "TOD")
+        _REG["sta_parent"][nm] = par
+        _REG["sta_of"][nm] = STATIONS[nm]
+        return create_station(nm, STATIONS[nm], parent_frame=get_frame(par)).name
+    if op == "lone":  # a frame whose centre is linked to nothing: it must be reported as unconnected
+        from beyond.frames.frames import Frame
+        from beyond.frames.center import Center
+        from beyond.frames import orient as _orient
+
+        return Frame("Lone", _orient.EME2000, Center("Lone")).name
     if op == "svQ":  # local orbital frame on a plain (non-propagating) StateVector given in another frame than the parent
         from beyond.orbits import StateVector
 
@@ -553,6 +567,7 @@ def check_registry(hist, t):
     world.restore(R["snap"])
     R["ref_of"] = {}
     R["sta_of"] = {}
+    R["sta_parent"] = {}
     case = dict(kind="registry", history=list(hist))
     new = []
     snaps = {}
@@ -586,6 +601,27 @@ def check_registry(hist, t):
     p0 = np.array(probe, dtype=float)
     for a in new:
         for b in BUILTIN + [x for x in new if x != a]:
+            if "Lone" in (a, b):
+                # unconnected items are reported as such (ValueError), never silently converted
+                if b == "Lone":
+                    continue  # handled when a == "Lone"
+                for src, dst in ((b, "Lone"), ("Lone", b)):
+                    try:
+                        if src == "Lone":
+                            from beyond.orbits import StateVector
+
+                            StateVector([7e6, 1e5, -2e5, 10.0, 7.5e3, 1e2], R["date"], "cartesian", "Lone").copy(frame=dst)
+                        else:
+                            probe.copy(frame=src).copy(frame=dst)
+                        t.trans()
+                        t.fail("registry/unconnected-not-reported/" + _kind(src) + "-" + _kind(dst), "unconnected items are reported as such",
+                               case, "ValueError", "a converted state", f"{src}->{dst} after {hist}")
+                    except ValueError:
+                        t.trans()
+                    except Exception as e:
+                        t.fail("registry/unconnected-wrong-exception/" + _kind(src) + "-" + _kind(dst), "unconnected items are reported as such",
+                               case, "ValueError", repr(e), f"{src}->{dst}")
+                continue
             try:
                 x = probe.copy(frame=b).copy(frame=a)
                 y = x.copy(frame=b).copy(frame="EME2000")
@@ -632,7 +668,7 @@ def check_registry(hist, t):
 
     for a, (lat, lon, alt) in R["sta_of"].items():
         try:
-            z = StateVector([0, 0, 0, 0, 0, 0], R["date"], "cartesian", a).copy(frame="ITRF")
+            z = StateVector([0, 0, 0, 0, 0, 0], R["date"], "cartesian", a).copy(frame=R["sta_parent"].get(a, "ITRF"))
             t.trans()
             exp = geodesy.geodetic_to_ecef(np.radians(lat), np.radians(lon), alt, _E.r, _E.f)
             err = float(np.linalg.norm(np.array(z, dtype=float)[:3] - np.asarray(exp)[:3]))
@@ -650,7 +686,41 @@ def check_registry(hist, t):
 
 
 def _kind(name):
-    return {"Sta1": "station", "Sta2": "station", "StaE": "eq-station", "Orb0": "orbframe", "OrbM": "orbframe-on-body", "OrbN": "orbframe-nested", "OrbQ": "lof", "OrbT": "lof", "LofM": "lof-on-body", "SvQ": "lof-on-statevector"}.get(name, "body" if name in ("Moon", "Sun") else "builtin")
+    return {"Sta1": "station", "Sta2": "station", "StaE": "eq-station", "Orb0": "orbframe", "OrbM": "orbframe-on-body", "OrbN": "orbframe-nested", "OrbQ": "lof", "OrbT": "lof", "LofM": "lof-on-body", "SvQ": "lof-on-statevector", "StaP": "station-other-parent", "StaT": "station-other-parent", "Lone": "unlinked"}.get(name, "body" if name in ("Moon", "Sun") else "builtin")
+
+
+REG_CORE = ["sta1", "sta2", "staE", "orb0", "orbQ", "orbT", "moon", "sun"]
+
+
+def registry_histories(tier):
+    full_depth = 3 if tier == "quick" else 4
+    out, seen = [], set()
+
+    def add(h):
+        k = tuple(h)
+        ok = all(_enabled(op, list(h[:i])) for i, op in enumerate(h))
+        if ok and k not in seen:
+            seen.add(k)
+            out.append(list(h))
+
+    def rec(h, ops, depth):
+        if h:
+            add(h)
+        if len(h) >= depth:
+            return
+        for op in ops:
+            if op not in h:
+                rec(h + [op], ops, depth)
+
+    rec([], REG_CORE, full_depth)
+    rec([], REG_OPS, full_depth - 1)
+    for d, n in REG_NEEDS.items():
+        for x in REG_OPS:
+            if x not in (d, n):
+                add([n, d, x])
+                add([n, x, d])
+                add([x, n, d])
+    return out
 
 
 def run_registry(prefix, depth, t):
